@@ -105,14 +105,15 @@ Proof. destruct w as [lx|lx pr|lx|lx]; cbn [word_lex wk]; intros W; [apply delim
 (* ---- every token of a lexically well-formed surface program is delimited ---- *)
 Definition leaf_lex (a : xleaf) : bool :=
   match a with XS lx => str_lexeme lx | XI lx => int_lexeme lx | XF lx => float_shape lx | XW lx => is_ident lx end.
+Definition colon_lex (p : list xword) (ps : list (list xword)) : bool := forallb word_lex p && forallb (forallb word_lex) ps.
 Definition xpair_lex (p : xpair) : bool :=
   match fst p with KQ lx => str_lexeme lx | KW ws => forallb word_lex ws end &&
-  match snd p with PVLeaf a => leaf_lex a | PVWords ws => forallb word_lex ws end.
+  match snd p with PVLeaf a => leaf_lex a | PVWords ws => forallb word_lex ws | PVColon q qs => colon_lex q qs end.
 Fixpoint xval_lex (v : xval) : bool :=
   match v with XLeaf a => leaf_lex a | XList l _ => forallb xval_lex l | XWords ws => forallb word_lex ws | XDict p ps _ => forallb xpair_lex (p :: ps) end.
 Definition xarg_lex (x : text * xarg) : bool :=
   is_ident (fst x) && match snd x with XAVal v => xval_lex v | XADict p ps _ => forallb xpair_lex (p :: ps)
-                                     | XAColon p ps => forallb word_lex p && forallb (forallb word_lex) ps end.
+                                     | XAColon p ps => colon_lex p ps end.
 Definition xcmd_lex (c : xcmd) : bool := match xc_result c with Some r => is_ident r | None => true end && is_ident (xc_name c) && forallb xarg_lex (xc_args c).
 Ltac punct := cbn [In]; tauto.
 Lemma leaf_delim a : leaf_lex a = true -> delimited (lk a).
@@ -122,10 +123,14 @@ Proof. intros H. unfold tkj. apply Forall_app. split; [apply tk_join_delim; exac
   constructor; [apply delim_punct; punct | constructor]. Qed.
 Lemma words_delim ws : forallb word_lex ws = true -> Forall delimited (map wk ws).
 Proof. intros W. rewrite Forall_map. rewrite forallb_forall in W. rewrite Forall_forall. intros w Hw. apply word_delim, W, Hw. Qed.
+Lemma colon_delim p ps : colon_lex p ps = true -> Forall delimited (tk_colon p ps).
+Proof. unfold colon_lex, tk_colon. intros W. apply andb_true_iff in W as [W2 W3]. apply Forall_app. split; [apply words_delim; exact W2|].
+  clear W2. induction ps as [|q ps IH]; [constructor|]. cbn [forallb] in W3. apply andb_true_iff in W3 as [W3 W4].
+  cbn [flat_map]. constructor; [apply delim_punct; punct|]. apply Forall_app. split; [apply words_delim; exact W3 | apply IH; exact W4]. Qed.
 Lemma xpair_delim p : xpair_lex p = true -> Forall delimited (tkx_pair p).
 Proof. unfold xpair_lex, tkx_pair. destruct p as [k v]. cbn [fst snd]. intros W. apply andb_true_iff in W as [W1 W2]. apply Forall_app. split.
   - destruct k as [lx|ws]; cbn [tk_key]; [constructor; [apply delim_str; exact W1 | constructor] | apply words_delim; exact W1].
-  - constructor; [apply delim_punct; punct|]. destruct v as [a|ws]; cbn [tk_pv]; [constructor; [apply leaf_delim; exact W2 | constructor] | apply words_delim; exact W2]. Qed.
+  - constructor; [apply delim_punct; punct|]. destruct v as [a|ws|q qs]; cbn [tk_pv]; [constructor; [apply leaf_delim; exact W2 | constructor] | apply words_delim; exact W2 | apply colon_delim; exact W2]. Qed.
 Lemma xvalue_delim v : xval_lex v = true -> Forall delimited (tkx_value v).
 Proof. induction v as [a|l tr IH|ws|p ps tr] using xval_ind'; cbn [xval_lex tkx_value]; intros W;
   [| | rewrite Forall_map; rewrite forallb_forall in W; rewrite Forall_forall; intros w Hw; apply word_delim, W, Hw
@@ -139,9 +144,7 @@ Proof. unfold xarg_lex, tkx_arg. intros W. apply andb_true_iff in W as [W1 W2]. 
   destruct (snd x) as [v|p ps tr|p ps]; [apply xvalue_delim; exact W2| |].
   - constructor; [apply delim_punct; punct|]. apply Forall_app. split; [|constructor; [apply delim_punct; punct | constructor]].
     apply tkj_delim. rewrite Forall_map. rewrite forallb_forall in W2. rewrite Forall_forall. intros q Hq. apply xpair_delim, W2, Hq.
-  - apply andb_true_iff in W2 as [W2 W3]. apply Forall_app. split; [apply words_delim; exact W2|].
-    clear W2. induction ps as [|q ps IH]; [constructor|]. cbn [forallb] in W3. apply andb_true_iff in W3 as [W3 W4].
-    cbn [flat_map]. constructor; [apply delim_punct; punct|]. apply Forall_app. split; [apply words_delim; exact W3 | apply IH; exact W4]. Qed.
+  - apply colon_delim; exact W2. Qed.
 Lemma xcmd_delim c : xcmd_lex c = true -> Forall delimited (tkx_cmd c).
 Proof. unfold xcmd_lex, tkx_cmd, tkx_head. intros W. apply andb_true_iff in W as [W W3]. apply andb_true_iff in W as [W1 W2].
   assert (T : Forall delimited (tkj (xc_trail c) (map tkx_arg (xc_args c)) ++ [rpt])).
